@@ -71,4 +71,9 @@ META = {
         text="Exploration: after every generated conversion / registration / toggle / alias step and after every generated EVM program, per pair: escrow equals ERC-20 total supply (module-owned, FX wrapper) or coin supply over all denominations (externally-owned), balances over the closed holder set equal total supply, the pair / denom / contract / alias indexes and bank metadata agree, and each conversion moves exactly its amount.",
         note="Known, unrepaired findings (nested EVM execution inside precompile conversions; alias removal with outstanding supply) are excluded by construction and counted.",
     ),
+    "C13": dict(
+        technique="model-based stateful property-based testing (rapid) of the oracle registry and stake custody through the real crosschain, staking and bank keepers (real staking end blocker for unbonding maturity, real validator slashing), with raw-store index bijection checks after every step",
+        text="Exploration: generated oracle life cycles (bond, add-delegate, re-delegate, governance removal within and beyond the cap, slashing for missed oracle-set confirmations, unbonding period, withdrawal early / on time / twice) are compared with a reference model of the registry and of every oracle's stake; an oracle may go offline only for an object it left unconfirmed for the signed window since it joined.",
+        note="Slashing decisions are checked for oracle sets (the object kind this machine creates); batches and bridge calls are covered by C07 for halting only.",
+    ),
 }
